@@ -1,18 +1,21 @@
 #!/usr/bin/env python3
 import json, sys
 pid = sys.argv[1]; n = int(sys.argv[2]) if len(sys.argv) > 2 else 3
+WAVE = sys.argv[3] if len(sys.argv) > 3 else ''
+out = 'out' + WAVE
 p = next(json.loads(l) for l in open('/verif/properties.jsonl') if json.loads(l)['id'] == pid)
 low = pid.lower()
-print(f"""You are testing how robust a Go code base's guarantees are. You have a scratch git worktree of AdGuard Home at /tmp/atk-{low} (a detached checkout; work ONLY there and under /tmp/atk-{low}-out; never touch /repo or /verif, and do not read anything under /verif).
+extra = ("This is a second round: favour defects that depend on STATE accumulated across several operations (a cache or memo that is not invalidated on one path, an index or counter left stale by one kind of update, a reconfiguration or restart sequence, reuse of a long-lived object after an error), on BOUNDARY values (zero, maximum, one past the limit, empty collections, exact equality at a threshold) or on an unusual but legal COMBINATION of settings. " if WAVE else "")
+print(f"""You are testing how robust a Go code base's guarantees are. You have a scratch git worktree of AdGuard Home at /tmp/atk-{low} (a detached checkout; work ONLY there and under /tmp/atk-{low}-{out}; never touch /repo or /verif, and do not read anything under /verif).
 
 Property under attack:
 "{p['title']}. {p['statement']}"
 It must hold {p['quantifier']['text']}.
 Relevant code: {', '.join(p['anchors']['files'])}.
 
-Task: produce {n} different, independent source changes (each a separate small patch against the worktree's HEAD) to AdGuard Home, each of which BREAKS this property while (a) the module still compiles (`go build ./...`) and (b) the existing tests of every package you touch still pass (`go test -vet=off -count=1 ./internal/<pkg>/...`). Prefer realistic slips a developer could make in a refactoring or "optimisation", and prefer changes that need something SPECIFIC to manifest (a particular interleaving, a crash or fault at a particular point, a multi-step sequence of operations, an unusual input or boundary value, or two cooperating sites that each look fine alone) rather than ones that ordinary use would expose at once. The {n} changes should break different clauses / parts of the property.
+Task: produce {n} different, independent source changes (each a separate small patch against the worktree's HEAD) to AdGuard Home, each of which BREAKS this property while (a) the module still compiles (`go build ./...`) and (b) the existing tests of every package you touch still pass (`go test -vet=off -count=1 ./internal/<pkg>/...`). {extra}Prefer realistic slips a developer could make in a refactoring or "optimisation", and prefer changes that need something SPECIFIC to manifest (a particular interleaving, a crash or fault at a particular point, a multi-step sequence of operations, an unusual input or boundary value, or two cooperating sites that each look fine alone) rather than ones that ordinary use would expose at once. The {n} changes should break different clauses / parts of the property.
 
-For each change i in 1..{n} write into /tmp/atk-{low}-out/<i>/:
+For each change i in 1..{n} write into /tmp/atk-{low}-{out}/<i>/:
 - patch.diff  (output of `git diff` in the worktree for exactly that change; reset the worktree with `git checkout -- .` between changes)
 - demo_test.go (a self-contained in-package Go test file that can be dropped into the package directory named in README; it must FAIL with the change applied and PASS without it, deterministically (run it 3 times on the clean tree); name the test TestSeededDemo...; if it needs `-race` or a GOEXPERIMENT say so in README)
 - README.md (3-6 lines: what the change is; the package directory the demo belongs to (e.g. internal/home) and the exact go test command; what exactly is needed for it to manifest; which clause of the property it breaks)
